@@ -8,7 +8,7 @@ def run(chk):
         "Decides absence of specific classes of panic; it does not prove the ~500 remaining panic-capable sites (indexing, unwrap on internal "
         "invariants, third-party code) safe. R04a: no coercion result on a run-time value is unwrapped in resolve-reachable stdlib code. R04b: no result "
         "of a `dyn Target` call is unwrapped. R04c: every keyword compile() reads is declared (a mismatch is the 'invalid function signature' panic). "
-        "R04e: no overflow-capable negation / iN::abs / iN::pow of a run-time signed integer. R04f: no unguarded sign-losing cast feeding a count/index. R04g: no str slice/index bound computed from a character count. R04h: divisors and chunk/window/step sizes are constants or compared against zero. R04i: `regex::Captures` is indexed with the panicking `[]` only at the reviewed sites where the group always takes part in the match (an optional or alternated group makes `caps[i]` panic; `caps.get(i)` is the total API). R04j: in resolve-reachable stdlib code the result of a library call whose failure depends on the *content* of its argument (AEAD decryption = authentication, float->Decimal conversion = range, UTF-8 validation, FromStr parsing, regex compilation) is never consumed directly by unwrap/expect; all other unwrap-on-call sites are listed as instances but not decided. R04k: `rust_decimal::Decimal` arithmetic on a run-time operand goes through the `checked_*` API; the `+ - * / %` operator impls panic on overflow and on a zero divisor in every build profile. R04l: ArgumentList::optional_enum accepts a literal only by Value equality with a declared variant (no case folding / trimming / prefix matching on the way), which is what the stdlib's `expect(\"validated enum\")` / `unreachable!()` arms after an enum argument rely on. R04m: every `rand::Rng::random_range` call (it panics on an empty range, and for floats on a range whose width is not finite) is dominated by an order comparison of its element type and, for floats, by an `is_finite` test.")
+        "R04e: no overflow-capable negation / iN::abs / iN::pow of a run-time signed integer. R04f: no unguarded sign-losing cast feeding a count/index. R04g: no str slice/index bound computed from a character count. R04h: divisors and chunk/window/step sizes are constants or compared against zero. R04i: `regex::Captures` is indexed with the panicking `[]` only at the reviewed sites where the group always takes part in the match (an optional or alternated group makes `caps[i]` panic; `caps.get(i)` is the total API). R04j: in resolve-reachable stdlib code the result of a library call whose failure depends on the *content* of its argument (AEAD decryption = authentication, float->Decimal conversion = range, UTF-8 validation, FromStr parsing, regex compilation) is never consumed directly by unwrap/expect; all other unwrap-on-call sites are listed as instances but not decided. R04k: `rust_decimal::Decimal` arithmetic on a run-time operand goes through the `checked_*` API; the `+ - * / %` operator impls panic on overflow and on a zero divisor in every build profile. R04l: ArgumentList::optional_enum accepts a literal only by Value equality with a declared variant (no case folding / trimming / prefix matching on the way), which is what the stdlib's `expect(\"validated enum\")` / `unreachable!()` arms after an enum argument rely on. R04m: every `rand::Rng::random_range` call (it panics on an empty range, and for floats on a range whose width is not finite) is dominated by an order comparison of its element type and, for floats, by an `is_finite` test. R04n: writer/reader agreement for enum arguments — every variant in the list a compile() passes to optional_enum has an arm in the literal dispatch (byte trie / str equality chain) of the same module that consumes it and ends in `unreachable!()`; a variant without an arm is accepted by the compiler and panics when used.")
     chk.assumptions += ["builds with overflow checks (the test profile) panic on arithmetic overflow; release builds wrap — the rule treats both as defects"]
     M = sr.function_model(chk.facts)
     sr.rule_coercion_unwrapped(chk, "R04a", M)
@@ -25,6 +25,7 @@ def run(chk):
     rule_r04k(chk)
     rule_r04l(chk)
     rule_r04m(chk)
+    rule_r04n(chk, M)
 
 
 CAPTURES_INDEX_OK = {
@@ -270,3 +271,73 @@ def rule_r04m(chk):
                 chk.violation(rid, b.file, n, "float random_range without is_finite test", "%s samples a float range with no dominating is_finite test: an infinite bound "
                               "(`to_float!(\"inf\")`) or a width that overflows makes rand's sampler return NonFinite, which random_range unwraps — the host panics" % n,
                               detail=d, loc=d["at"])
+
+
+# R04n --------------------------------------------------------------------------------------------
+def _const_strs_in(body):
+    out = []
+    for _bb, t in body.calls():
+        for a in t["args"]:
+            if a.get("k") == "const" and "str" in a:
+                out.append(a["str"])
+    for blk in body.blocks:
+        for st in blk["s"]:
+            rv = st["rv"]
+            ops = [rv["op"]] if isinstance(rv.get("op"), dict) else []
+            ops += rv["ops"] if isinstance(rv.get("ops"), list) else []
+            for o in ops:
+                if isinstance(o, dict) and o.get("k") == "const" and "str" in o:
+                    out.append(o["str"])
+    return out
+
+
+def rule_r04n(chk, M):
+    import re
+    import trie
+    from facts import op_local, flow_sources
+    facts = chk.facts
+    rid = "R04n"
+    chk.rule(rid, "every enum variant accepted by optional_enum has an arm in the panicking literal dispatch that consumes it", floor=4)
+    panics = re.compile(r"panicking::(panic|panic_fmt|unreachable_display|panic_display|panic_explicit)$")
+    by_file = {}
+    for n in facts.names():
+        nb = facts.body(n)
+        if nb is not None:
+            by_file.setdefault(nb.file, []).append(nb)
+    for f in M.functions.values():
+        comp = f.get("compile")
+        cb = facts.body(comp) if isinstance(comp, str) else None
+        if cb is None:
+            continue
+        for bb, t in cb.calls():
+            if not cb.callee(t).endswith("ArgumentList::optional_enum") or len(t["args"]) < 3:
+                continue
+            kw = t["args"][1].get("str")
+            vl = op_local(t["args"][2])
+            helpers = [sc[2] for sc in (flow_sources(cb, vl) if vl is not None else set()) if sc[0] in ("call", "via") and facts.has(sc[2])]
+            W = set()
+            for h in helpers:
+                W |= set(_const_strs_in(facts.body(h)))
+            if not W:
+                chk.note(rid, "%s(%s): the variant list is not a literal list (built from an enum type's own table); not decided" % (f["identifier"], kw))
+                continue
+            files = {cb.file} | {facts.body(h).file for h in helpers}
+            found = False
+            for fl in sorted(files):
+                for nb in by_file.get(fl, []):
+                    if not any(panics.search(nb.callee(ct)) for _b, ct in nb.calls()):
+                        continue
+                    L = trie.literal_dispatch(facts, nb)
+                    if not L or not (set(L) & W):
+                        continue
+                    found = True
+                    missing = sorted(W - set(L))
+                    d = {"function": f["identifier"], "keyword": kw, "declared_in": helpers, "variants": sorted(W), "dispatch": nb.name, "arms": sorted(L), "missing": missing}
+                    chk.instance(rid, d, ok=not missing)
+                    if missing:
+                        chk.violation(rid, nb.file, nb.name, "%s: no arm for %s" % (kw, ",".join(missing)),
+                                      "`%s`: %s accepts %s for `%s`, but the dispatch in %s has no arm for it and ends in unreachable!()/panic: the program compiles and "
+                                      "the host panics when the call runs" % (f["identifier"], helpers[0], ", ".join(repr(x) for x in missing), kw, nb.name),
+                                      detail=d, loc="%s:%s" % (nb.file, nb.line))
+            if not found:
+                chk.note(rid, "%s(%s): no panicking literal dispatch over %s found in %s; not decided" % (f["identifier"], kw, sorted(W), sorted(files)))
